@@ -6,6 +6,7 @@ import (
 	"path/filepath"
 	"sort"
 	"strings"
+	"syscall"
 
 	"verif/internal/chk"
 	"verif/internal/gen"
@@ -43,7 +44,7 @@ func statChanges(before, after run.Snapshot, paths []string) []mon.Problem {
 func c02(args []string) {
 	c := chk.New("C02", "exploration", args)
 	c.Build(false)
-	c.Rule("[old modification times] in every second complete-run / re-run history the tools set the modification time of their outputs to the year 2001; [changed wrapper] complete run, then the same workflow with another Prepend (different command lines, same output paths): nothing runs, nothing changes; [gathered files] a task with a joined in-port whose output exists while parts of it are computed in the same run (file placed by the user; one part deleted after a complete run): not executed, file untouched; [interrupted runs] the run is killed inside a task's finalization (hook points after a declared output was renamed, temp directory still there) and re-run in place without cleanup: outputs already at their final paths keep inode/mtime/bytes and no command of their tasks runs; [links and pass-through] histories: complete run, an intermediate output that has a consumer is moved away and linked back (relative and absolute link), run again twice: no command runs, no file appears, every entry keeps inode/mtime/bytes; a process whose out-port path is its input path ({i:in}), file there before the first run: its command never runs and the file is never touched. generated non-streaming graphs of command / Go-function processes and sources; for each graph subsets of its tasks (all subsets when <= 5 tasks, else random ones) get all their outputs pre-placed (bytes of an earlier complete run incl. audit files / arbitrary user bytes / empty files), and the history 'complete run, run again in place' (also: 4-16 independent chains that end in the sink and fan into one merging process, also a process whose out-port is declared through SetOut only; chains / two-output tasks / diamonds with outputs in nested, parent-relative and absolute directories, re-run completely and after deleting the last process's outputs; 4-16 independent chains re-run 25-60 times in place as separate processes and 60-150 times inside one process, so that every process finishes at the same moment); oracle = no start event of a skipped task, (inode, size, mtime_ns, sha256) of every pre-existing output unchanged, downstream tasks executed exactly once on the pre-existing bytes (reference evaluation), re-run executes nothing. distinct_nontrivial = distinct (graph shape, subset, content kind) with >= 1 skipped and >= 1 executed task, plus re-run histories")
+	c.Rule("[reserved-looking names] outputs named <another output>.fifo and log/*.log through a complete run and twelve re-runs; [old modification times] in every second complete-run / re-run history the tools set the modification time of their outputs to the year 2001; [changed wrapper] complete run, then the same workflow with another Prepend (different command lines, same output paths): nothing runs, nothing changes; [gathered files] a task with a joined in-port whose output exists while parts of it are computed in the same run (file placed by the user; one part deleted after a complete run): not executed, file untouched; [interrupted runs] the run is killed inside a task's finalization (hook points after a declared output was renamed, temp directory still there) and re-run in place without cleanup: outputs already at their final paths keep inode/mtime/bytes and no command of their tasks runs; [links and pass-through] histories: complete run, an intermediate output that has a consumer is moved away and linked back (relative and absolute link), run again twice: no command runs, no file appears, every entry keeps inode/mtime/bytes; a process whose out-port path is its input path ({i:in}), file there before the first run: its command never runs and the file is never touched. generated non-streaming graphs of command / Go-function processes and sources; for each graph subsets of its tasks (all subsets when <= 5 tasks, else random ones) get all their outputs pre-placed (bytes of an earlier complete run incl. audit files / arbitrary user bytes / empty files), and the history 'complete run, run again in place' (also: 4-16 independent chains that end in the sink and fan into one merging process, also a process whose out-port is declared through SetOut only; chains / two-output tasks / diamonds with outputs in nested, parent-relative and absolute directories, re-run completely and after deleting the last process's outputs; 4-16 independent chains re-run 25-60 times in place as separate processes and 60-150 times inside one process, so that every process finishes at the same moment); oracle = no start event of a skipped task, (inode, size, mtime_ns, sha256) of every pre-existing output unchanged, downstream tasks executed exactly once on the pre-existing bytes (reference evaluation), re-run executes nothing. distinct_nontrivial = distinct (graph shape, subset, content kind) with >= 1 skipped and >= 1 executed task, plus re-run histories")
 	c.Assume("subsets are subsets of tasks (all outputs of a task present), as the property quantifies; partial presence is C03's subject", ".audit.json files, log/ and atime are not judged")
 	rng := c.Rand("c02")
 	ngraphs := c.Pick(14, 120)
@@ -346,6 +347,7 @@ func c02(args []string) {
 	c02interrupted(c)
 	c02joined(c)
 	c02changedWrapper(c)
+	c02reservedNames(c)
 	c.Finish()
 }
 
@@ -1006,5 +1008,88 @@ func c02changedWrapper(c *chk.Ctx) {
 		}
 		c.Count("outputs_stat_compared", len(outs))
 		c.Nontrivial(fmt.Sprintf("wrapper|%d", i%3))
+	})
+}
+
+// c02reservedNames: outputs whose names look like files the library keeps for itself - "<another output>.fifo", and
+// "*.log" files in the log/ directory - are outputs like any other. History: complete run, then twelve re-runs in place
+// (the library writes one log file per run): nothing runs, nothing changes.
+func c02reservedNames(c *chk.Ctx) {
+	run.Parallel(c.Pick(2, 6), func(i int) {
+		root := c.CaseDir()
+		defer c.Drop(root)
+		in, o1 := []spec.PortDecl{{Name: "in"}}, []spec.PortDecl{{Name: "out"}}
+		s := &spec.Spec{Name: "reserved", MaxTasks: 2, Sources: map[string]string{"n0.txt": "n0\n", "n1.txt": "n1\n"}}
+		s.Procs = append(s.Procs, &spec.Proc{Name: "src", Kind: spec.KFileSource, Files: []string{"n0.txt", "n1.txt"}},
+			&spec.Proc{Name: "A", Kind: spec.KCmd, Cmd: spec.BuildCmd("A", in, o1, nil, nil, nil), Outs: []*spec.Out{{Port: "out", Pattern: "{i:in}.a"}}},
+			&spec.Proc{Name: "B", Kind: []string{spec.KCmd, spec.KGoFunc}[i%2], Cmd: spec.BuildCmd("B", in, o1, nil, nil, nil), Outs: []*spec.Out{{Port: "out", Pattern: "{i:in}.fifo"}}},
+			&spec.Proc{Name: "C", Kind: spec.KCmd, Cmd: spec.BuildCmd("C", in, o1, nil, nil, nil), Outs: []*spec.Out{{Port: "out", Pattern: "log/{i:in|basename}.check.log"}}})
+		s.Conns = append(s.Conns, &spec.Conn{From: "src.out", To: "A.in"}, &spec.Conn{From: "A.out", To: "B.in"}, &spec.Conn{From: "A.out", To: "C.in"})
+		// the log files of a dozen earlier runs of this workflow are still there
+		for k := 0; k < 12; k++ {
+			s.Sources[fmt.Sprintf("log/scipipe-202401%02d-101500-reserved.log", k+1)] = "AUDIT   old log\n"
+		}
+		cfg := Cfg{Buf: 3, Procs: 2, NoHooks: true}
+		desc := map[string]interface{}{"spec": s, "history": "complete run, twelve re-runs in place (a dozen older log files in log/)"}
+		r1 := execSpec(c, root, s, cfg, nil, false, 0)
+		if r1.Hang != "" && !strings.HasPrefix(r1.Hang, "deadlock") {
+			c.Inconclusive(r1.Hang)
+			return
+		}
+		if r1.Hang != "" || r1.Exit != 0 || !r1.Returned {
+			c.Violation("exit-nonzero", fmt.Sprintf("first run: exit %d %s: %s", r1.Exit, r1.Hang, tail(r1.Output(), 400)), desc)
+			return
+		}
+		// the log directory is part of the working directory here (run.Snap leaves "log" out: stat by hand)
+		stat := func() map[string]string {
+			m := map[string]string{}
+			for _, f := range []string{"n0.txt.a", "n1.txt.a", "n0.txt.a.fifo", "n1.txt.a.fifo", "log/n0.txt.a.check.log", "log/n1.txt.a.check.log"} {
+				fi, err := os.Stat(filepath.Join(r1.Wd, f))
+				if err != nil {
+					m[f] = "missing"
+					continue
+				}
+				b, _ := os.ReadFile(filepath.Join(r1.Wd, f))
+				m[f] = fmt.Sprintf("%d|%d|%s", fi.Sys().(*syscall.Stat_t).Ino, fi.ModTime().UnixNano(), vproto.Sha(b))
+			}
+			return m
+		}
+		before := stat()
+		for f, v := range before {
+			if v == "missing" {
+				c.Violation("exit-nonzero", "first run did not produce "+f, desc)
+				return
+			}
+		}
+		var rp []mon.Problem
+		for x := 1; x <= 12 && len(rp) == 0; x++ {
+			rx := execSpec(c, root, s, cfg, nil, true, x)
+			if rx.Hang != "" && !strings.HasPrefix(rx.Hang, "deadlock") {
+				c.Inconclusive(rx.Hang)
+				return
+			}
+			if rx.Hang != "" || rx.Exit != 0 || !rx.Returned {
+				rp = append(rp, mon.Problem{Sig: "rerun-failed", Msg: fmt.Sprintf("re-run %d: exit %d %s", x, rx.Exit, rx.Hang)})
+			}
+			for _, e := range rx.Trace {
+				if e.Ev == "start" {
+					rp = append(rp, mon.Problem{Sig: "rerun-executed-command", Msg: fmt.Sprintf("re-run %d executed %s although its output existed", x, e.Key)})
+				}
+			}
+			for f, v := range stat() {
+				if v != before[f] {
+					rp = append(rp, mon.Problem{Sig: "existing-output-inode-changed", Msg: fmt.Sprintf("re-run %d: %s changed (inode|mtime|sha %s -> %s)", x, f, clip(before[f], 40), clip(v, 40))})
+				}
+			}
+		}
+		if len(rp) > 0 {
+			for _, sig := range sigSet(rp) {
+				desc["problems"] = mon.Summarize(rp, 10)
+				c.Violation(sig, "outputs named <output>.fifo and log/*.log: "+strings.Join(mon.Summarize(rp, 4), "\n  "), desc)
+			}
+			return
+		}
+		c.Count("outputs_stat_compared", 6*12)
+		c.Nontrivial(fmt.Sprintf("reserved|%d", i))
 	})
 }
